@@ -9,14 +9,15 @@ def run(idx, rep, tier):
         "Divergences between numba-compiled and interpreted execution that are visible in the source: R-EAGER (a call whose "
         "argument layout/dtype/ndim the explicit signature rejects raises TypeError compiled and succeeds interpreted), "
         "R-FROZEN (globals captured at compile time are never mutated), R-GUARDSTORE / R-SENTINEL (an unchecked index is an "
-        "IndexError interpreted and a silent out-of-bounds access compiled), R-COMPACT (rows of np.empty buffers that reach a "
-        "return are written), plus the decorator inventory. Numerical agreement and numba's own typing are not decided.")
+        "IndexError interpreted and a silent out-of-bounds access compiled), R-COMPACT / R-EMPTYFILL (rows and cells of np.empty "
+        "buffers that reach a use are written), plus the decorator inventory. Numerical agreement and numba's own typing are not decided.")
     rep.assumptions = DOMAIN_D
     it = e1(idx)
     eager.r_eager(idx, rep, it, floor=150, unknown_ceiling=30)
     buffers.r_frozen(idx, rep)
     buffers.r_guardstore(idx, rep, floor=4)
     buffers.r_compact(idx, rep, floor=8)
+    buffers.r_emptyfill(idx, rep, floor=6)
     aabbtree.r_sentinel(idx, rep)
     # decorator inventory
     njit = [f for f in idx.all_functions() if f.njit]
